@@ -7,9 +7,10 @@ Rust functions are defined for.
 import BV.Gen.FnC18
 import BV.Model.PrefixArith
 import BV.Lemmas.PrefixArith
+import BV.Lemmas.RsPrelude
 
 namespace BV.Props.C18Gen
-open BV.Gen.FnC18 BV.PrefixArith BV.Lemmas.PrefixArith
+open BV.Gen.FnC18 BV.PrefixArith BV.Lemmas.PrefixArith BV.Rs
 
 theorem xor63 : ∀ k : Fin 64, 63 ^^^ (64 - 1 - k.val) = k.val := by decide
 
@@ -185,6 +186,54 @@ theorem encode_mlen_generated (len a b c : Nat) (h1 : 1 ≤ len) (h : len ≤ 2 
 example : PrefixEncodeCopyDistance 1000 0 0 7 7 = (8 * 1024 + 31, 220) := by decide
 example : BrotliEncodeMlen 65536 0 0 0 = (65535, 16, 0) := by decide
 example : BrotliEncodeMlen 65537 9 9 9 = (65536, 20, 1) := by decide
+
+/-- `Command::restore_distance_code`: for every stored `dist_prefix_` whose extra-bit count is at most 31
+(beyond that `<< nbits` panics in a debug build and is masked in a release build; the format never
+produces it), every `dist_extra_`, NPOSTFIX ≤ 3 and NDIRECT ≤ 120 -/
+theorem restore_distance_code_generated (prefix_ extra p nd : Nat) (hpre : prefix_ < 32768)
+    (hp : p ≤ 3) (hnd : nd ≤ 120) :
+    restore_distance_code extra prefix_ p nd = restoreDistanceCode prefix_ extra nd p := by
+  have h32 : (2:Nat) ^ 32 = 4294967296 := by decide
+  unfold restore_distance_code restoreDistanceCode
+  have hland : sop (fun x y => x &&& y) 32 ((prefix_ : Nat) : Int) (1023 : Int) = ((prefix_ % 1024 : Nat) : Int) := by
+    have := sop32_ofNat (fun x y => x &&& y) prefix_ 1023 (by omega) (by decide)
+      (by show prefix_ &&& 1023 < 2147483648; rw [and_1023]; omega)
+    simp only [and_1023] at this
+    exact this
+  have hsum : wrapS 32 (wrapS 32 ((16 : Nat) : Int) + wrapS 32 ((nd : Nat) : Int)) = ((16 + nd : Nat) : Int) := by
+    rw [wrapS32_of_range ((16 : Nat) : Int) (by omega) (by omega), wrapS32_of_range ((nd : Nat) : Int) (by omega) (by omega),
+      wrapS32_of_range _ (by omega) (by omega)]
+    omega
+  simp only [hland, hsum, and_1023, short_codes_is_16, h32]
+  by_cases hc : prefix_ % 1024 < 16 + nd
+  · have hc' : ((prefix_ % 1024 : Nat) : Int) < ((16 + nd : Nat) : Int) := by omega
+    simp only [hc, hc', decide_true, if_true]
+  · have hc' : ¬ ((prefix_ % 1024 : Nat) : Int) < ((16 + nd : Nat) : Int) := by omega
+    simp only [hc, hc', decide_false, if_false, Bool.false_eq_true]
+    have hb1 : ((prefix_ % 1024 + 4294967296 - nd) % 4294967296 + 4294967296 - 16) % 4294967296
+        = prefix_ % 1024 - nd - 16 := by omega
+    have hb2 : (prefix_ % 1024 + 4294967296 - nd % 4294967296 + 4294967296 - 16) % 4294967296
+        = prefix_ % 1024 - nd - 16 := by omega
+    have hp32 : p % 32 = p := by omega
+    have hnb : prefix_ >>> (10 % 16) % 32 = prefix_ / 1024 := by
+      rw [Nat.shiftRight_eq_div_pow]
+      have : (2:Nat) ^ (10 % 16) = 1024 := by decide
+      rw [this]; omega
+    have hPpos : 0 < 2 ^ p := Nat.pow_pos (by decide)
+    have hP8 := two_pow_small p hp
+    have hmask : (1 <<< p % 4294967296 + 4294967296 - 1) % 4294967296 = 2 ^ p - 1 := by
+      rw [Nat.shiftLeft_eq, Nat.one_mul]; omega
+    rw [hb1, hb2, hp32, hnb, hmask]
+    simp only [Nat.shiftRight_eq_div_pow, Nat.shiftLeft_eq, Nat.and_one_is_mod, Nat.and_two_pow_sub_one_eq_mod]
+    have hh : (prefix_ % 1024 - nd - 16) / 2 ^ p % 2 < 2 := Nat.mod_lt _ (by decide)
+    rw [Nat.mod_eq_of_lt (a := 2 + (prefix_ % 1024 - nd - 16) / 2 ^ p % 2) (by omega)]
+    omega
+
+/-- `Command::copy_len` -/
+theorem copy_len_generated (f : Nat) : copy_len f = f % 33554432 :=
+  Nat.and_two_pow_sub_one_eq_mod f 25
+
+example : restore_distance_code 220 (8 * 1024 + 31) 0 0 = 1000 := by decide
 
 example : GetInsertLengthCode 22593 = 22 := by decide
 example : GetCopyLengthCode 2117 = 22 := by decide
